@@ -55,16 +55,52 @@ structure PMember where
   body : Bytes
 deriving DecidableEq, Repr
 
-/-- the header block of the ordinary member: name / link name replaced by their cut ASCII form when the full value
-    travels in a `path` / `linkpath` record (names over 100 bytes that USTAR cannot split, non-ASCII names) -/
+/-- index of the last occurrence of `c` -/
+def lastIdx (c : UInt8) (s : Bytes) : Option Nat :=
+  let r := s.reverse.takeWhile (· != c)
+  if r.length = s.length then none else some (s.length - r.length - 1)
+
+/-- splitUSTARPath: a name of more than 100 ASCII bytes is split at a slash into the prefix field (at most 155
+    bytes) and the name field (at most 100), when such a slash exists -/
+def splitUstar (name : Bytes) : Option (Bytes × Bytes) :=
+  if name.length ≤ 100 ∨ asciiOnly name ≠ name then none
+  else
+    let length := if name.length > 156 then 156 else if name.getLast? = some slash then name.length - 1 else name.length
+    match lastIdx slash (name.take length) with
+    | none => none
+    | some i =>
+      let nlen := name.length - i - 1
+      if i = 0 ∨ nlen > 100 ∨ nlen = 0 ∨ i > 155 then none else some (name.take i, name.drop (i + 1))
+
+/-- Writer.writeRawFile for the GNU long-name ('L') and long-link ('K') members: named ././@LongLink, body = the
+    full value and a NUL -/
+def gnuLongMember (tf : UInt8) (value : Bytes) : Member :=
+  { hdr := { flavor := .gnu, name := b!"././@LongLink", size := value.length + 1, typeflag := tf, dev := false },
+    body := value ++ [0] }
+
+/-- the header block of the ordinary member.  GNU: name and link name cut at 100 bytes (the full values travel in
+    'L' / 'K' members).  USTAR/PAX: a value that travels in a `path` / `linkpath` record is cut to its first 100 ASCII
+    bytes; otherwise an over-long name is split into prefix and name field -/
 def mainHdr (m : PMember) : Hdr :=
-  { m.hdr with
-    name := if (lookupB (b!"path") m.pax).isSome then cutTo 100 m.hdr.name else m.hdr.name,
-    linkname := if (lookupB (b!"linkpath") m.pax).isSome then cutTo 100 m.hdr.linkname else m.hdr.linkname }
+  match m.hdr.flavor with
+  | .gnu => { m.hdr with name := m.hdr.name.take 100, linkname := m.hdr.linkname.take 100 }
+  | .ustar =>
+    let h1 : Hdr :=
+      if (lookupB (b!"path") m.pax).isSome then { m.hdr with name := cutTo 100 m.hdr.name }
+      else match splitUstar m.hdr.name with
+        | some (p, s) => { m.hdr with name := s, pfx := p }
+        | none => m.hdr
+    { h1 with linkname := if (lookupB (b!"linkpath") m.pax).isSome then cutTo 100 m.hdr.linkname else m.hdr.linkname }
 
 def expand (m : PMember) : List Member :=
-  if m.pax = [] then [{ hdr := m.hdr, body := m.body }]
-  else [{ hdr := xHdr m.hdr.name (paxBody m.pax).length, body := paxBody m.pax }, { hdr := mainHdr m, body := m.body }]
+  match m.hdr.flavor with
+  | .gnu =>
+    (if m.hdr.name.length > 100 then [gnuLongMember 76 m.hdr.name] else [])
+      ++ (if m.hdr.linkname.length > 100 then [gnuLongMember 75 m.hdr.linkname] else [])
+      ++ [{ hdr := mainHdr m, body := m.body }]
+  | .ustar =>
+    (if m.pax = [] then [] else [{ hdr := xHdr m.hdr.name (paxBody m.pax).length, body := paxBody m.pax }])
+      ++ [{ hdr := mainHdr m, body := m.body }]
 
 def paxArchive (ms : List PMember) : Bytes := archive (ms.flatMap expand)
 
@@ -93,21 +129,35 @@ def parseRecords : Nat → Bytes → Option (List (Bytes × Bytes))
       | none => none
       | some (kv, rest) => (parseRecords fuel rest).map (kv :: ·)
 
-/-- attach each extension member's records to the member that follows it -/
-def collapse : List Member → Option (List PMember)
-  | [] => some []
-  | [m] => if m.hdr.typeflag = 120 then none else some [{ hdr := m.hdr, body := m.body }]
-  | m :: m2 :: rest =>
+/-- what pseudo-members have announced for the next ordinary member -/
+structure Pending where
+  name : Option Bytes := none
+  link : Option Bytes := none
+  recs : Option (List (Bytes × Bytes)) := none
+deriving DecidableEq, Repr
+
+/-- attach what 'x' (records), 'L' (long name) and 'K' (long link name) members carry to the member that follows
+    them; join a USTAR prefix with the name -/
+def collapseP : Pending → List Member → Option (List PMember)
+  | p, [] => if p = {} then some [] else none
+  | p, m :: rest =>
     if m.hdr.typeflag = 120 then
-      if m2.hdr.typeflag = 120 then none
+      if p.recs.isSome then none
       else match parseRecords (m.body.length + 1) m.body with
         | none => none
-        | some recs =>
-          -- mergePAX: `path` and `linkpath` records replace the header's name and link name
-          (collapse rest).map ({ hdr := { m2.hdr with name := (lookupB (b!"path") recs).getD m2.hdr.name,
-                                                       linkname := (lookupB (b!"linkpath") recs).getD m2.hdr.linkname },
-                                 pax := recs, body := m2.body } :: ·)
-    else (collapse (m2 :: rest)).map ({ hdr := m.hdr, body := m.body } :: ·)
+        | some recs => collapseP { p with recs := some recs } rest
+    else if m.hdr.typeflag = 76 then
+      if p.name.isSome then none else collapseP { p with name := some (readStr m.body) } rest
+    else if m.hdr.typeflag = 75 then
+      if p.link.isSome then none else collapseP { p with link := some (readStr m.body) } rest
+    else
+      let recs := p.recs.getD []
+      let joined := if m.hdr.pfx = [] then m.hdr.name else m.hdr.pfx ++ slash :: m.hdr.name
+      let name := (lookupB (b!"path") recs).getD (p.name.getD joined)
+      let link := (lookupB (b!"linkpath") recs).getD (p.link.getD m.hdr.linkname)
+      (collapseP {} rest).map ({ hdr := { m.hdr with name := name, linkname := link, pfx := [] }, pax := recs, body := m.body } :: ·)
+
+def collapse (ms : List Member) : Option (List PMember) := collapseP {} ms
 
 def paxRead (s : Bytes) : Option (List PMember) := (read s).bind collapse
 
